@@ -221,9 +221,11 @@ pub fn run_history(h: &History, style: Style, sched: &[u16], credit: u64, ctx: &
     ex.spawn("server", server_app(net.clone(), h.clone(), o.clone(), sigs.clone(), ended.clone(), sp.clone()));
     let mut ops = vec![PeerOp::OpenUni(0), PeerOp::Write(0, peer::control_preamble(&[]))];
     let malformed = rf::frame(rf::T_HEADERS, &rq::encode_section_literal(&[(b":method".to_vec(), b"GET".to_vec()), (b":scheme".to_vec(), b"https".to_vec()), (b":authority".to_vec(), b"a".to_vec()), (b":path".to_vec(), b"/".to_vec()), (b"Upper".to_vec(), b"x".to_vec())], false));
+    // a client's GOAWAY carries a push id: any integer is legal (RFC 9114 5.2; 2^62-1 is the customary "shutdown notice")
+    let goaway_id = [0u64, 1, 3, (1 << 62) - 1, 5, 4, 2][(h.reqs.len() + h.goaway_at.unwrap_or(0) * 3 + h.own_shutdown.map(|(a, n)| a + n).unwrap_or(0)) % 7];
     for (k, r) in h.reqs.iter().enumerate() {
         if h.goaway_at == Some(k) {
-            ops.push(PeerOp::Write(0, peer::goaway_frame(0)));
+            ops.push(PeerOp::Write(0, peer::goaway_frame(goaway_id)));
         }
         let key = k + 1;
         ops.push(PeerOp::OpenBidi(key));
@@ -237,7 +239,7 @@ pub fn run_history(h: &History, style: Style, sched: &[u16], credit: u64, ctx: &
         }
     }
     if h.goaway_at == Some(h.reqs.len()) {
-        ops.push(PeerOp::Write(0, peer::goaway_frame(0)));
+        ops.push(PeerOp::Write(0, peer::goaway_frame(goaway_id)));
     }
     // late application-side endings: released one by one at the end, after everything else settled
     ops.push(PeerOp::Barrier);
@@ -255,7 +257,7 @@ pub fn run_history(h: &History, style: Style, sched: &[u16], credit: u64, ctx: &
     let end = ex.run(&net, &mut peer, &mut t, style, 200_000);
     let obs = o.borrow().clone();
     let closes = net.close_calls(Side::Server);
-    let case = || json!({"history": hist_json(h), "style": format!("{style:?}"), "sched": sched, "credit": if credit == UNLIMITED { -1 } else { credit as i64 }, "observed": format!("{obs:?}"), "ended": ended.get(), "closes": format!("{closes:?}"), "pending": ex.pending_tasks()});
+    let case = || json!({"history": hist_json(h), "style": format!("{style:?}"), "sched": sched, "credit": if credit == UNLIMITED { -1 } else { credit as i64 }, "goaway_id": goaway_id.to_string(), "observed": format!("{obs:?}"), "ended": ended.get(), "closes": format!("{closes:?}"), "pending": ex.pending_tasks()});
     if end == RunEnd::StepBound {
         return Err(Failure::fault("step bound"));
     }
@@ -312,6 +314,9 @@ pub fn run_history(h: &History, style: Style, sched: &[u16], credit: u64, ctx: &
             Ending::Never => ctx.class("ending_never"),
             Ending::Normal => ctx.class("ending_normal"),
         }
+    }
+    if h.goaway_at.is_some() && goaway_id % 4 != 0 {
+        ctx.class("peer_goaway_with_a_push_id_that_is_no_stream_id");
     }
     if let Some((at, n)) = h.own_shutdown {
         ctx.class("own_shutdown");
